@@ -203,7 +203,8 @@ Definition p_done (p : parser) : bool * parser :=
   let '(r1, s1, t1) := s_add (sub p) (tmp p) in
   let '(ret, tl, s2) := if r1 then s_add (tot p) s1 else (false, tot p, s1) in
   let p' := mkP (dl p) (fd p) (hc p) (hp p) (er p) tl s2 t1 in
-  if hp p then (false, set_er p' E_POINT)
+  if negb ret then (false, p')   (* the number itself is malformed: no separator error is reported *)
+  else if hp p then (false, set_er p' E_POINT)
   else if hc p && cmp_nat (lg_cmp cfg) (dl p) (lg_len cfg) then (false, set_er p' E_COMMA)
   else (ret, p').
 
